@@ -91,12 +91,20 @@ class VLoop(asyncio.BaseEventLoop):
                 raise socket.gaierror(socket.EAI_ADDRFAMILY, "family mismatch")
             res = [(socket.AF_INET6, type or socket.SOCK_DGRAM, proto, "",
                     (str(ip), port, 0, 0))]
+        fut = self.create_future()
         if self.gai_hold > 0:
             self.gai_hold -= 1
-            fut = self.create_future()
             self.gai_pending.append((fut, res))
             return await fut
-        return res
+        # like the executor-backed original the answer never arrives in the iteration of the call:
+        # the caller is suspended for (at least) one loop iteration
+        self.call_soon(self._gai_done, fut, res)
+        return await fut
+
+    @staticmethod
+    def _gai_done(fut, res):
+        if not fut.done():
+            fut.set_result(res)
 
     def release_gai(self, index: int = 0) -> None:
         fut, res = self.gai_pending.pop(index)
